@@ -59,10 +59,11 @@ def fmt_stacks(stacks):
 
 
 def run_sim(main, chooser, gran='sync', step_cap=400000, start_dt=None,
-            stall=False, max_stall=2.0):
+            stall=False, max_stall=2.0, epoch=1_700_000_000.0, fairness=100):
     sim = core.Sim(chooser, gran=gran, step_cap=step_cap, start_dt=start_dt,
-                   max_stall=max_stall)
+                   max_stall=max_stall, epoch=epoch)
     sim.stall_enabled = stall
+    sim.fairness = fairness
     env.quiet_excepthook()
     out = sim.run(lambda: main(sim))
     return sim, out
